@@ -82,21 +82,21 @@ func unfill(fds []int) {
 }
 
 type c13Env struct {
-	x       *engine.X
-	ioc     *sonic.IO
-	lfd     int // raw listener that accepts nothing (connections queue in the backlog)
-	laddr   [4]byte
-	lport   int
-	slst    sonic.Listener // sonic listener for the accept constructor
-	saddr   [4]byte
-	sport   int
-	queued  []int
-	udpBusy int // raw UDP socket occupying a port
-	udpPort int
-	tcpBusy int
+	x           *engine.X
+	ioc         *sonic.IO
+	lfd         int // raw listener that accepts nothing (connections queue in the backlog)
+	laddr       [4]byte
+	lport       int
+	slst        sonic.Listener // sonic listener for the accept constructor
+	saddr       [4]byte
+	sport       int
+	queued      []int
+	udpBusy     int // raw UDP socket occupying a port
+	udpPort     int
+	tcpBusy     int
 	tcpBusyAddr [4]byte
 	tcpBusyPort int
-	deadPort int
+	deadPort    int
 }
 
 func newC13Env(x *engine.X) *c13Env {
@@ -358,12 +358,12 @@ func c13Fail(x *engine.X) {
 // ---- (b) close sequences ----------------------------------------------------------------------------
 
 type c13Obj struct {
-	kind   string
-	fds    []int    // descriptors the object owns
-	ids    []string // their identities at creation
-	close  func() error
-	closed int
-	owner  func() error // adapter: the net.Conn that owns the descriptor
+	kind        string
+	fds         []int    // descriptors the object owns
+	ids         []string // their identities at creation
+	close       func() error
+	closed      int
+	owner       func() error // adapter: the net.Conn that owns the descriptor
 	ownerClosed bool
 }
 
